@@ -75,9 +75,10 @@ type Broker struct {
 	SessionPresentSent []bool
 	ProtoErrors        []string
 
-	Down           bool // refuse to talk: current connection is cut, dials fail (checked by the dialer)
-	Silent         bool // process nothing, answer nothing (link stays up)
-	SilentPingOnly bool // answer everything except PINGREQ
+	Down           bool         // refuse to talk: current connection is cut, dials fail (checked by the dialer)
+	Silent         bool         // process nothing, answer nothing (link stays up)
+	SilentPingOnly bool         // answer everything except PINGREQ
+	Deaf           map[int]bool // connections on which PINGREQ is never answered again (everything else is)
 
 	// OnConnect lists messages pushed to the client right behind each CONNACK
 	// (index = connection ordinal-1; the last entry repeats).
@@ -322,7 +323,7 @@ func (b *Broker) process(c *memnet.Conn, bc *bconn, p *mqttref.Packet, kind stri
 		}
 		resp = append(resp, bresp{mqttref.EncAck(mqttref.UNSUBACK, p.ID), ""})
 	case mqttref.PINGREQ:
-		if !b.SilentPingOnly {
+		if !b.SilentPingOnly && !b.Deaf[c.ID] {
 			resp = append(resp, bresp{mqttref.EncPingResp(), ""})
 		}
 	case mqttref.DISCONNECT:
